@@ -10,6 +10,7 @@ ASSUME = [
     "follow under a dynamic RF map: phase modulation (kick shift up to n/16 cells, 0.02-0.3 periods per step) and/or phase/amplitude noise; in each of 12 consecutive steps a blob is put on a particle, apply() then applyTo(): centroid and particle agree within 0.001 cell + 2.25 x the largest second difference of the kick table; cases whose kick changes by more than 0.01 cell between steps are counted and required",
     "inside the grid: every coordinate finite and in [0, n-1] after every applyTo, for legal start positions (what PhaseSpace::x()/y() can return) incl. the exact edges",
     "ensemble: 20000 particles from the unit Gaussian under RF kick + drift + stochastic Fokker-Planck for five damping times; mean within 6/sqrt(N) sigma of the zero bins and width within 6/sqrt(2N) + e1 + a/2 of 1 at every snapshot (statistics, discretisation of the stochastic process, O(a) tilt of the kick-drift invariant ellipse)",
+    "every other ensemble runs under the stochastic Fokker-Planck model alone on a 32-64 cell grid (zero-energy bin with any fractional part): same criteria, so an offset of the damping centre of half a cell (0.1-0.19 sigma) is far outside 6/sqrt(N) = 0.042 sigma",
     "program complement: tracking files with edge particles in the ASan/UBSan build with --outstep 1: no sanitizer report, all stored coordinates finite and inside the axes",
 ]
 
@@ -81,4 +82,4 @@ def run(ctx):
     ctx.min_events = {"particles_followed": 3000, "particle_moves_checked": 200000, "ensemble_snapshots": 100,
                       "fp_track_model.0": 10, "fp_track_model.1": 10, "fp_track_model.2": 10, "fp_track_model.3": 10,
                       "tracking_runs_under_sanitizer": 4,
-                      "particles_followed_dynamic_rf": 2000, "followdyn_cases_with_kick_changing_between_steps": 150}
+                      "particles_followed_dynamic_rf": 2000, "followdyn_cases_with_kick_changing_between_steps": 150, "ensembles_under_fp_alone": 3}
